@@ -38,6 +38,7 @@ static void hook_record(int idx, uint8_t inval){
   if (FLUSH_EACH) flushout();
 }
 static int inv(void);
+static void shim_prezero(void);
 static void exhaust(int digest, int L, int nr, const unsigned char *reps, int do_end);
 static void witness(const unsigned char *str, int n, int do_end);
 /* ---- exhaustive chunk-schedule exploration inside C ---- */
@@ -45,8 +46,9 @@ static long NFEED, NSCHED, NSTR, NDIFF, NINV, NLIVE; static unsigned GMASK;
 static int ptrs_null(void);
 static int CUTPOS = -1, CUTALL = 0;     /* long inputs: one cut after byte CUTPOS / a cut after every byte (positions beyond the 31 bits of a mask) */
 static int iscut(unsigned mask, int k){ if (CUTALL) return 1; if (CUTPOS >= 0) return k == CUTPOS; return k < 31 && (mask & (1u << k)); }
+static int POISON = 0;                  /* what the state struct holds before start() is called (op 'P'): start() must not rely on zeroed memory */
 static void run_one(const unsigned char *s, int n, unsigned mask, int do_end){
-  shim_release(); memset(ST, 0, sizeof(PSTATE_T)); install_hooks();
+  shim_release(); memset(ST, POISON, sizeof(PSTATE_T)); if (POISON) shim_prezero(); install_hooks();
   CUR_PP = NULL; int r = PSTART(ST); install_hooks(); out8('S'); out8(r);
   int a = 0, term = (r != 0);
   while (!term && a < n){
@@ -190,6 +192,7 @@ int main(int argc, char **argv){
     unsigned op = rd8();
     switch (op){
     case 'Z': shim_release(); memset(ST, 0, sizeof(PSTATE_T)); install_hooks(); break;
+    case 'P': POISON = rd8(); break;
     case 'S': { CUR_PP = NULL; int r = PSTART(ST); install_hooks(); out8('S'); out8(r); } break;
     case 'T': ST->state = rd32(); break;
     case 'I': { unsigned i = rd8(); long long v = rd64(); shim_set_int(i, v); } break;
@@ -322,6 +325,13 @@ def gen_shim(acc, sentinels=None):
             if out.type == T.STR:
                 o.append("  if (ST->c.%s) return 0;" % nm)
     o.append("  return 1; }")
+    # scalar outputs without a default value are not initialised by start() (their value is unspecified until assigned): the harness gives them a
+    # defined value after poisoning the struct, so that reading them in a snapshot is not undefined behaviour of the harness itself
+    o.append("static void shim_prezero(void){")
+    for nm, out in spec.items():
+        if out.type in (T.INT, T.BOOL, T.ENUM) and out.default_value is None:
+            o.append("  memset(&ST->c.%s, 0, sizeof(ST->c.%s));" % (nm, nm))
+    o.append("}")
     o.append("static void shim_set_int(unsigned i, long long v){ switch(i){")
     for i, (nm, out) in enumerate(spec.items()):
         if out.type in (T.INT, T.BOOL):
@@ -416,6 +426,10 @@ class CProg:
     # ---- script building
     def op_start(self):
         return b"S"
+
+    def op_poison(self, b):
+        """the byte the in-C explorers fill the state struct with before every start() (default 0)"""
+        return b"P" + bytes([b])
 
     def op_zero(self):
         return b"Z"
